@@ -1240,7 +1240,7 @@ func (x *Exec) dispatch(st *Step, ev Ev) {
 		x.sqlOps(st, ev)
 	case "FloatFmt", "FloatJSON":
 		x.floatOps(st, ev)
-	case "ToCSV", "ToJSON", "String", "ReadCSV", "ReadJSON", "Scribble", "View":
+	case "ToCSV", "ToJSON", "String", "ReadCSV", "ReadJSON", "Scribble", "View", "TypedView":
 		x.dispatchIO(st, ev)
 	case "SliceObs":
 		// subsequent observations use View.Slice() instead of View.ItemAt(i)
